@@ -257,7 +257,7 @@ func runCase(o *drv.Out, ci, nHeights int) {
 	for i := range stakes {
 		stakes[i] = uint64(1_000_000_000 + rng.Intn(9)*500_000_000)
 	}
-	opts := node.Options{}
+	opts := node.Options{SchemeAccounts: 6} // ordinary senders of all four signature schemes
 	small := ci%2 == 1
 	if small {
 		opts.BlockSize = lib.MaxBlockHeaderSize + 24_000
@@ -278,7 +278,7 @@ func runCase(o *drv.Out, ci, nHeights int) {
 		if len(lastIncluded) != 0 && rng.Intn(2) == 0 {
 			replay = lastIncluded[:1]
 		}
-		txs := c.Mix.Mix(node.MixOpts{Height: h, Sends: sends, Failing: rng.Intn(6), Conflicts: rng.Intn(2), ValOps: hi%2 == 0, Replay: replay})
+		txs := c.Mix.Mix(node.MixOpts{Height: h, Sends: sends, Failing: rng.Intn(6), Conflicts: rng.Intn(2), ValOps: hi%2 == 0, Replay: replay, ResubmitForged: hi >= 1})
 		ht := proposeAndCommit(c, A, txs)
 		if ht == nil {
 			return
